@@ -2,7 +2,7 @@
    the references valid and leaves index.json current at quiescence; the programs of the real
    operations, assembled from the call sequences read from the sources, respect it. *)
 From Coq Require Import List Arith Bool PeanoNat Lia.
-From Oras Require Import Base.Prelude Generated.GC08 Model.OciIndex Proofs.OciIndex Model.OciConc Model.OciLocks.
+From Oras Require Import Base.Prelude Generated.GC08 Model.OciIndex Proofs.OciIndex Model.OciConc Proofs.OciConc Model.OciLocks.
 Import ListNotations.
 Local Open Scope nat_scope.
 
@@ -51,6 +51,44 @@ Proof.
   - intros k. rewrite F. simpl. now rewrite Nat.eqb_refl.
 Qed.
 
+Lemma nodup_filter_keys (f : ref * desc -> bool) m : NoDup (map fst m) -> NoDup (map fst (filter f m)).
+Proof.
+  induction m as [|[k v] m IH]; simpl; intro ND; auto.
+  inversion ND as [|? ? Hn ND']; subst.
+  destruct (f (k, v)); simpl; auto.
+  constructor; auto. intro H. apply Hn. apply in_map_iff in H as ((k', v') & E & I0).
+  simpl in E. subst. apply filter_In in I0 as [I0 _]. apply in_map_iff. exists (k, v'). auto.
+Qed.
+Lemma lookup_filter (f : ref * desc -> bool) m r : NoDup (map fst m) ->
+  lookup r (filter f m) = match lookup r m with Some d => if f (r, d) then Some d else None | None => None end.
+Proof.
+  induction m as [|[k v] m IH]; simpl; intro ND; auto.
+  inversion ND as [|? ? Hn ND']; subst.
+  destruct (ref_eqb r k) eqn:E.
+  - apply ref_eqb_eq in E. subst k. destruct (f (r, v)) eqn:F; simpl.
+    + now rewrite ref_eqb_refl.
+    + rewrite (IH ND'). destruct (lookup r m) as [d|] eqn:L; auto.
+      exfalso. apply Hn. apply lookup_Some_In in L. apply in_map_iff. exists (r, d). auto.
+  - destruct (f (k, v)); simpl; [rewrite E|]; now apply IH.
+Qed.
+Lemma ixinv_delete_refs k ix : IxInv ix -> IxInv (delete_refs k ix).
+Proof.
+  intro I. unfold delete_refs.
+  set (f := fun kv : ref * desc => negb (Nat.eqb (d_node (snd kv)) k)).
+  assert (ND : NoDup (map fst ix)) by apply I.
+  split.
+  - now apply nodup_filter_keys.
+  - intros k' d H. rewrite (lookup_filter f ix _ ND) in H.
+    destruct (lookup (RDig k') ix) as [d0|] eqn:L; [|discriminate].
+    destruct (f (RDig k', d0)); [|discriminate]. injection H as <-. now apply (ix_j2 _ I).
+  - intros t d H. rewrite (lookup_filter f ix _ ND) in H.
+    destruct (lookup (RTag t) ix) as [d0|] eqn:L; [|discriminate].
+    destruct (f (RTag t, d0)) eqn:F; [|discriminate]. injection H as <-.
+    pose proof (ix_j1 _ I _ _ L) as X. rewrite (lookup_filter f ix _ ND).
+    destruct (lookup (RDig (d_node d0)) ix) as [d1|] eqn:L1; [|congruence].
+    pose proof (ix_j2 _ I _ _ L1) as E1. unfold f in *. simpl in *. rewrite E1, F. congruence.
+Qed.
+
 Section Inv.
   Notation md s j := (ts_mode (l_ts (ll_ths s j))).
   Notation hold s j := (ts_hold (l_ts (ll_ths s j))).
@@ -58,17 +96,20 @@ Section Inv.
   Notation dirty s j := (ts_dirty (l_ts (ll_ths s j))).
   Notation ver s j := (ts_ver (l_ts (ll_ths s j))).
   Notation clr s j := (ts_clr (l_ts (ll_ths s j))).
+  Notation dig s j := (ts_dig (l_ts (ll_ths s j))).
 
   Definition some_dirty (s : lstate) : Prop := exists j, j < ll_n s /\ dirty s j = true.
   Definition current (s : lstate) : Prop := exists c, ll_disk s = save_index (fst c) (snd c) (ll_live s).
 
   Record LInv (s : lstate) : Prop := {
     l_il : forall j, ll_ilock s = Some j -> j < ll_n s;
+    l_ix : IxInv (ll_live s);
+    l_dig : forall i k, i < ll_n s -> In k (dig s i) -> l_ok (ll_ths s i) = true -> lookup (RDig k) (ll_live s) <> None;
     l_chk : forall i, i < ll_n s -> check (l_ts (ll_ths s i)) (l_prog (ll_ths s i)) = true;
     l_hold : forall i, i < ll_n s -> (hold s i = true <-> ll_ilock s = Some i);
     l_excl : forall i j, i < ll_n s -> j < ll_n s -> md s i = MExcl -> j <> i -> md s j = MNone;
     l_none : forall i, i < ll_n s -> md s i = MNone ->
-             hold s i = false /\ dirty s i = false /\ snapped s i = false /\ ver s i = [] /\ clr s i = [];
+             hold s i = false /\ dirty s i = false /\ snapped s i = false /\ ver s i = [] /\ clr s i = [] /\ dig s i = [];
     l_shared : forall i, i < ll_n s -> md s i = MShared -> clr s i = [];
     l_snapped : forall i, i < ll_n s -> snapped s i = true ->
                 hold s i = true /\ exists v, l_snap (ll_ths s i) = Some v /\ (v = ll_live s \/ some_dirty s);
@@ -78,14 +119,16 @@ Section Inv.
     l_clr : forall i k, i < ll_n s -> In k (clr s i) ->
             forall r d, In (r, d) (ll_live s) -> d_node d <> k }.
 
-  Lemma linv_init s : l_init s -> LInv s.
+  Lemma linv_init s : l_init s -> IxInv (ll_live s) -> LInv s.
   Proof.
-    intros (Hd & Hr & Hl & Ht). split.
+    intros (Hd & Hr & Hl & Ht) Hix. split.
     - intros j E. congruence.
+    - exact Hix.
+    - intros i k Hi X. destruct (Ht i Hi) as (A & _). rewrite A in X. destruct X.
     - intros i Hi. destruct (Ht i Hi) as (A & _ & _ & C). now rewrite A.
     - intros i Hi. destruct (Ht i Hi) as (A & _). rewrite A, Hl. simpl. split; discriminate.
     - intros i j Hi Hj E. destruct (Ht i Hi) as (A & _). rewrite A in E. discriminate.
-    - intros i Hi _. destruct (Ht i Hi) as (A & _). rewrite A. simpl. auto.
+    - intros i Hi _. destruct (Ht i Hi) as (A & _). rewrite A. simpl. repeat split; reflexivity.
     - intros i Hi _. destruct (Ht i Hi) as (A & _). now rewrite A.
     - intros i Hi E. destruct (Ht i Hi) as (A & _). rewrite A in E. discriminate.
     - intros _. now left.
@@ -128,6 +171,8 @@ Section Inv.
       destruct (l_none s I i Li Ok) as (Nh & Nd & Ns & Nv & Nc). fold t a in Nh, Nd, Ns, Nv, Nc.
       split; simpl.
       + intros j0 E0. now apply (l_il s I).
+      + apply (l_ix s I).
+      + intros j k' Hj. dj j i; simpl; [tauto|now apply (l_dig s I)].
       + intros j Hj. dj j i; simpl; auto. now apply (l_chk s I).
       + intros j Hj. dj j i; simpl; [apply (l_hold s I i Li)|now apply (l_hold s I)].
       + intros x y Hx Hy. dj x i; dj y i; simpl; try congruence; try discriminate.
@@ -152,10 +197,12 @@ Section Inv.
       apply negb_true_iff in Od, Os, Oh. apply lmode_eqb_eq in Om.
       split; simpl.
       + intros j0 E0. now apply (l_il s I).
+      + apply (l_ix s I).
+      + intros j k' Hj. dj j i; simpl; [tauto|now apply (l_dig s I)].
       + intros j Hj. dj j i; simpl; auto. now apply (l_chk s I).
       + intros j Hj. dj j i; simpl; [apply (l_hold s I i Li)|now apply (l_hold s I)].
       + intros x y Hx Hy. dj x i; dj y i; simpl; try congruence; try discriminate. now apply (l_excl s I).
-      + intros j Hj. dj j i; simpl; [auto|now apply (l_none s I)].
+      + intros j Hj. dj j i; simpl; [intros _; repeat split; auto|now apply (l_none s I)].
       + intros j Hj. dj j i; simpl; auto. now apply (l_shared s I).
       + intros j Hj. dj j i; simpl.
         * fold a. rewrite Os. discriminate.
@@ -174,6 +221,8 @@ Section Inv.
       destruct (l_none s I i Li Ok) as (Nh & Nd & Ns & Nv & Nc). fold t a in Nh, Nd, Ns, Nv, Nc.
       split; simpl.
       + intros j0 E0. now apply (l_il s I).
+      + apply (l_ix s I).
+      + intros j k' Hj. dj j i; simpl; [tauto|now apply (l_dig s I)].
       + intros j Hj. dj j i; simpl; auto. now apply (l_chk s I).
       + intros j Hj. dj j i; simpl; [apply (l_hold s I i Li)|now apply (l_hold s I)].
       + intros x y Hx Hy. dj x i; dj y i; simpl; try congruence; try discriminate.
@@ -199,10 +248,12 @@ Section Inv.
       apply negb_true_iff in Od, Os, Oh. apply lmode_eqb_eq in Om.
       split; simpl.
       + intros j0 E0. now apply (l_il s I).
+      + apply (l_ix s I).
+      + intros j k' Hj. dj j i; simpl; [tauto|now apply (l_dig s I)].
       + intros j Hj. dj j i; simpl; auto. now apply (l_chk s I).
       + intros j Hj. dj j i; simpl; [apply (l_hold s I i Li)|now apply (l_hold s I)].
       + intros x y Hx Hy. dj x i; dj y i; simpl; try congruence; try discriminate. now apply (l_excl s I).
-      + intros j Hj. dj j i; simpl; [auto|now apply (l_none s I)].
+      + intros j Hj. dj j i; simpl; [intros _; repeat split; auto|now apply (l_none s I)].
       + intros j Hj. dj j i; simpl; auto. now apply (l_shared s I).
       + intros j Hj. dj j i; simpl.
         * fold a. rewrite Os. discriminate.
@@ -219,6 +270,9 @@ Section Inv.
       injection H as <-. simpl in Ok. apply negb_true_iff in Ok. apply lmode_neqb in Ok.
       split; simpl.
       + intros j0 E0. now apply (l_il s I).
+      + apply (l_ix s I).
+      + intros j k' Hj. dj j i; simpl; [|now apply (l_dig s I)].
+        intros X E. apply andb_true_iff in E as [E _]. now apply (l_dig s I i k').
       + intros j Hj. dj j i; simpl; auto. now apply (l_chk s I).
       + intros j Hj. dj j i; simpl; [apply (l_hold s I i Li)|now apply (l_hold s I)].
       + intros x y Hx Hy. dj x i; dj y i; simpl; try congruence; now apply (l_excl s I).
@@ -238,6 +292,8 @@ Section Inv.
       injection H as <-. simpl in Ok. apply negb_true_iff in Ok. apply lmode_neqb in Ok.
       split; simpl.
       + intros j0 E0. now apply (l_il s I).
+      + apply (l_ix s I).
+      + intros j k' Hj. dj j i; simpl; now apply (l_dig s I).
       + intros j Hj. dj j i; simpl; auto. now apply (l_chk s I).
       + intros j Hj. dj j i; simpl; [apply (l_hold s I i Li)|now apply (l_hold s I)].
       + intros x y Hx Hy. dj x i; dj y i; simpl; try congruence; now apply (l_excl s I).
@@ -255,7 +311,7 @@ Section Inv.
       + intros r' d' X. apply In_add. right. now apply (l_refs s I r' d').
       + intros j k' Hj. dj j i; simpl; now apply (l_clr s I).
     - (* KReg *)
-      injection H as <-. simpl in Ok. apply andb_true_iff in Ok as [Om Ov].
+      injection H as <-. simpl in Ok. apply andb_true_iff in Ok as [Ok Og]. apply andb_true_iff in Ok as [Om Ov].
       apply negb_true_iff in Om. apply lmode_neqb in Om.
       assert (NoClr : forall j, j < ll_n s -> j <> i -> clr s j = []).
       { intros j Hj Hji. destruct (md s j) eqn:E.
@@ -267,6 +323,21 @@ Section Inv.
       { exists i. split; auto. simpl. now rewrite lupd_same. }
       split; simpl.
       + intros j0 E0. now apply (l_il s I).
+      + destruct (l_ok t) eqn:Okt; [|apply (l_ix s I)].
+        destruct r as [d|tg d|tg]; simpl.
+        * apply ixinv_set_dig, (l_ix s I).
+        * apply ixinv_set_tag; [apply (l_ix s I)|]. apply mem_In in Og. now apply (l_dig s I i (d_node d)).
+        * apply ixinv_untag, (l_ix s I).
+      + intros j k' Hj.
+        assert (Mono : lookup (RDig k') (ll_live s) <> None ->
+                       lookup (RDig k') (if l_ok t then reg_fun r (ll_live s) else ll_live s) <> None).
+        { intro X. destruct (l_ok t); auto. now apply reg_keeps_digests. }
+        dj j i; simpl.
+        * destruct r as [d|tg d|tg]; simpl.
+          -- intros [<-|X] E; [rewrite E; cbn [reg_fun]; rewrite lookup_rset_eq; congruence|]. apply Mono. now apply (l_dig s I i k').
+          -- intros X E. apply Mono. now apply (l_dig s I i k').
+          -- intros X E. apply Mono. now apply (l_dig s I i k').
+        * intros X E. apply Mono. now apply (l_dig s I j k').
       + intros j Hj. dj j i; simpl; auto. now apply (l_chk s I).
       + intros j Hj. dj j i; simpl; [apply (l_hold s I i Li)|now apply (l_hold s I)].
       + intros x y Hx Hy. dj x i; dj y i; simpl; try congruence; now apply (l_excl s I).
@@ -304,6 +375,10 @@ Section Inv.
         simpl in Y. apply negb_true_iff in Y. now apply Nat.eqb_neq in Y. }
       split; simpl.
       + intros j0 E0. now apply (l_il s I).
+      + apply ixinv_delete_refs, (l_ix s I).
+      + intros j k' Hj. dj j i; simpl; [tauto|].
+        intros X. exfalso. assert (E : md s j = MNone) by (apply (l_excl s I i j Li Hj); auto).
+        destruct (l_none s I j Hj E) as (_ & _ & _ & _ & _ & G). rewrite G in X. destruct X.
       + intros j Hj. dj j i; simpl; auto. now apply (l_chk s I).
       + intros j Hj. dj j i; simpl; [apply (l_hold s I i Li)|now apply (l_hold s I)].
       + intros x y Hx Hy. dj x i; dj y i; simpl; try congruence; now apply (l_excl s I).
@@ -324,6 +399,8 @@ Section Inv.
         apply andb_true_iff in Ok as [Om Oh]. apply negb_true_iff in Om, Oh. apply lmode_neqb in Om.
         split; simpl.
         * intros j0 E0. injection E0 as <-. exact Li.
+        * apply (l_ix s I).
+        * intros j k' Hj. dj j i; simpl; now apply (l_dig s I).
         * intros j Hj. dj j i; simpl; auto. now apply (l_chk s I).
         * intros j Hj. dj j i; simpl; [tauto|].
           split; intro X; [|congruence]. apply (l_hold s I j Hj) in X. congruence.
@@ -345,6 +422,8 @@ Section Inv.
         injection H as <-. simpl in Ok.
         split; simpl.
         * intros j0 E0. now apply (l_il s I).
+        * apply (l_ix s I).
+        * intros j k' Hj. dj j i; simpl; now apply (l_dig s I).
         * intros j Hj. dj j i; simpl; auto. now apply (l_chk s I).
         * intros j Hj. dj j i; simpl; [apply (l_hold s I i Li)|now apply (l_hold s I)].
         * intros x y Hx Hy. dj x i; dj y i; simpl; try congruence; now apply (l_excl s I).
@@ -363,6 +442,8 @@ Section Inv.
         destruct (l_snapped s I i Li Os) as (_ & v & Sv & Cur). fold t in Sv. rewrite Sv.
         split; simpl.
         * intros j0 E0. now apply (l_il s I).
+        * apply (l_ix s I).
+        * intros j k' Hj. dj j i; simpl; now apply (l_dig s I).
         * intros j Hj. dj j i; simpl; auto. now apply (l_chk s I).
         * intros j Hj. dj j i; simpl; [apply (l_hold s I i Li)|now apply (l_hold s I)].
         * intros x y Hx Hy. dj x i; dj y i; simpl; try congruence; now apply (l_excl s I).
@@ -381,6 +462,8 @@ Section Inv.
         injection H as <-. simpl in Ok. apply andb_true_iff in Ok as [Oh Os]. apply negb_true_iff in Os.
         split; simpl.
         * intros j0 E0. discriminate.
+        * apply (l_ix s I).
+        * intros j k' Hj. dj j i; simpl; now apply (l_dig s I).
         * intros j Hj. dj j i; simpl; auto. now apply (l_chk s I).
         * intros j Hj. dj j i; simpl; [split; discriminate|].
           split; [|discriminate]. intro X. exfalso. apply n. now apply HoldU.
@@ -403,6 +486,8 @@ Section Inv.
       apply andb_true_iff in Ok as [Om Oc]. apply lmode_eqb_eq in Om. apply mem_In in Oc.
       split; simpl.
       + intros j0 E0. now apply (l_il s I).
+      + apply (l_ix s I).
+      + intros j k' Hj. dj j i; simpl; now apply (l_dig s I).
       + intros j Hj. dj j i; simpl; auto. now apply (l_chk s I).
       + intros j Hj. dj j i; simpl; [apply (l_hold s I i Li)|now apply (l_hold s I)].
       + intros x y Hx Hy. dj x i; dj y i; simpl; try congruence; now apply (l_excl s I).
@@ -432,10 +517,15 @@ Section Inv.
      once all have returned, index.json is current, every reference points to a blob file, and
      no lock is held *)
   Theorem locks_quiescent s0 sched :
-    l_init s0 -> let s := l_run sched s0 in
-    l_quiescent s -> current s /\ refs_valid s /\ ll_ilock s = None.
+    l_init s0 -> IxInv (ll_live s0) -> let s := l_run sched s0 in
+    IxInv (ll_live s) /\
+    (l_quiescent s -> current s /\ DiskOK (ll_disk s) (ll_live s) /\ refs_valid s /\ ll_ilock s = None).
   Proof.
-    intros H0 s Q. pose proof (linv_run sched s0 (linv_init s0 H0)) as I. fold s in I.
+    intros H0 Hix s. pose proof (linv_run sched s0 (linv_init s0 H0 Hix)) as I. fold s in I.
+    split; [apply (l_ix s I)|]. intro Q.
+    assert (Cur : current s -> DiskOK (ll_disk s) (ll_live s)).
+    { intros (c & E). rewrite E. apply save_diskok, (l_ix s I). }
+    enough (X : current s /\ refs_valid s /\ ll_ilock s = None) by (destruct X as (A & B & C); auto).
     assert (N : forall i, i < ll_n s -> md s i = MNone).
     { intros i Hi. pose proof (l_chk s I i Hi) as C. rewrite (Q i Hi) in C. simpl in C. now apply lmode_eqb_eq. }
     assert (Clean : forall i, i < ll_n s -> hold s i = false /\ dirty s i = false /\ snapped s i = false).
@@ -490,13 +580,32 @@ Qed.
    every schedule: at quiescence index.json is current, every live reference points to a blob
    file (so every index.json entry does), no lock is held *)
 Theorem store_operations_quiescent s0 sched :
-  current s0 -> refs_valid s0 -> ll_ilock s0 = None ->
+  IxInv (ll_live s0) -> current s0 -> refs_valid s0 -> ll_ilock s0 = None ->
   (forall i, i < ll_n s0 -> exists ops, ll_ths s0 i = mkLT (prog_of_lops ops) ts0 None true) ->
   let s := l_run sched s0 in
-  l_quiescent s -> current s /\ refs_valid s /\ ll_ilock s = None.
+  IxInv (ll_live s) /\
+  (l_quiescent s -> current s /\ DiskOK (ll_disk s) (ll_live s) /\ refs_valid s /\ ll_ilock s = None).
 Proof.
-  intros C R L T. apply locks_quiescent. split; auto. split; auto. split; auto.
+  intros Hix C R L T. apply locks_quiescent; auto. split; auto. split; auto. split; auto.
   intros i Hi. destruct (T i Hi) as (ops & ->). simpl. repeat split; auto. apply lops_checked.
+Qed.
+
+(* what the reopened store answers: loadIndex of that index.json gives every tag its live
+   descriptor (with the ref-name annotation set) and a digest entry exactly for the live ones *)
+Corollary store_operations_reload s0 sched :
+  IxInv (ll_live s0) -> current s0 -> refs_valid s0 -> ll_ilock s0 = None ->
+  (forall i, i < ll_n s0 -> exists ops, ll_ths s0 i = mkLT (prog_of_lops ops) ts0 None true) ->
+  let s := l_run sched s0 in
+  l_quiescent s ->
+  let ix' := r_index (fold_left load_res (ll_disk s) res_empty) in
+  (forall t, lookup (RTag t) ix' = option_map (fun d => with_ref d (RTag t)) (lookup (RTag t) (ll_live s))) /\
+  (forall k, lookup (RDig k) ix' <> None <-> lookup (RDig k) (ll_live s) <> None).
+Proof.
+  intros Hix C R L T s Q ix'.
+  destruct (store_operations_quiescent s0 sched Hix C R L T) as [I X]. fold s in I, X.
+  destruct (X Q) as (_ & D & _). split.
+  - intro t. apply (reload_tag _ _ D).
+  - intro k. apply (reload_dig _ _ D).
 Qed.
 
 (* the lock placements of the two seeded changes do not pass the checker *)
